@@ -52,6 +52,12 @@ def standard_scripts(big=True):
         S.append(script("binary-cut%d" % sl, b"20 image/png", True, "ok", 20, False, "none", b"\x89PNG\r\n", True, "fin",
                         send_len=len(b"20 image/png") + 2 + sl))
     S.append(script("emptymeta", b"20 ", True, "ok", 20, True, "none", b"x", True, "fin"))
+    # other 2x statuses carry a body too, also when it arrives in later reads than the header
+    for st in (21, 25, 29):
+        S.append(script("ok%d" % st, ("%d text/gemini" % st).encode(), True, "ok", st, True, "none", body, True, "fin", extra_cuts=(20, 24)))
+    # a header longer than the protocol allows is still a header: the call ends at once, with a response or a clear error
+    S.append(script("longmeta", b"20 text/gemini; note=" + b"m" * 2000, True, "ok", 20, True, "none", b"BODY!", True, "fin"))
+    S.append(script("longmeta51", b"51 " + b"m" * 1025, True, "ok", 51, True, "none", b"", True, "fin"))
     for st in (10, 31, 44, 51, 62):
         for e in ("fin", "never"):
             S.append(script("st%d-%s" % (st, e), ("%d meta text" % st).encode(), True, "ok", st, True, "none", b"BODY!", True, e))
